@@ -25,7 +25,7 @@ def main():
         pid = meta.get('property') or name.split('-')[0]
         conf = sh('%s/tools/seeded_confirm.sh %s' % (VERIF, name)).stdout.strip().splitlines()[-1]
         ev = sh('%s/tools/seeded_eval.sh %s %s' % (VERIF, name, pid)).stdout.strip().splitlines()[-1]
-        dirty = sh('git -C /repo status --short').stdout.strip()
+        dirty = sh('git -C %s status --short' % os.environ.get('RIMU_REPO', '/repo')).stdout.strip()
         m = re.search(r'exit=(\d+) :: (.*?) :: (.*)$', ev)
         verdict = 'missed'
         if m and m.group(1) == '1' and 'VIOLATION' in m.group(2):
